@@ -232,7 +232,12 @@ class Reconcile:
 
                 if valf.root is not work_root:  # from different tree, need to verify first
                     try:
+                        child_parent_values = child_parent.a.values
+
                         for i in range(start, end):
+                            if child_parent_values[child_off_idx + i] is not values[i] or child_parent_keys[child_off_idx + i] is not keys[i]:  # elements may have been moved within their own tree so that their recorded positions are stale
+                                raise ValueError('node not at its recorded position')
+
                             if key := keys[i]:
                                 key.f.verify(reparse=False)
 
@@ -318,8 +323,13 @@ class Reconcile:
 
                 if childf.root is not work_root:  # from different tree, need to verify first
                     try:
+                        child_parent_body = getattr(child_parent.a, child_field)
+
                         for i in range(start, end):
-                            body[i].f.verify(reparse=False)
+                            if child_parent_body[child_off_idx + i] is not (a := body[i]):  # elements may have been moved within their own tree so that their recorded positions are stale
+                                raise ValueError('node not at its recorded position')
+
+                            a.f.verify(reparse=False)
 
                         slice = child_parent.get_slice(child_idx, child_off_idx + end, child_field,
                                                        trivia=self.trivia_fst_get)
@@ -461,6 +471,9 @@ class Reconcile:
         if not (nodef := getattr(node, 'f', None)) or nodef.root is not self.work:  # pure AST if no '.f' or FST from different tree
             if nodef:  # FST from different tree, need to verify it before using
                 try:
+                    if (parent := nodef.parent) and nodef.pfield.get(parent.a) is not node:  # the node may have been moved within its own tree so that its recorded position is stale, a copy would then copy whatever is at that position now
+                        raise ValueError('node not at its recorded position')
+
                     copy = nodef.verify(reparse=False).copy(trivia=self.trivia_fst_get)
 
                     copy.verify()  # the structure check above does not see changed primitives (identifiers, constants, operators), reparse the copy to make sure its source still is what the nodes say
